@@ -9,14 +9,17 @@ package main
 //   spawn T set K V          Set in a goroutine; parks at gw.set.summoned (instance handed out, no vigil yet),
 //                            then at gw.set.vigil (vigil held, nothing written yet)
 //   spawn T del K            Delete in a goroutine; parks at destroy.draining when it removed the last record
+//   spawn T delm K1 K2       one Delete request with two keys (parks like spawn del)      → … | T done <st1>,<st2>
 //   spawn T close            Close() on the mapped instance in a goroutine; parks at swamp.closed (flushed, routines
 //                            cancelled, close callback — which removes the map entry — not yet called)
-//   spawnw T set K V         like spawn, but the request may have to wait for a closing instance → … | T waiting
-//   poll T                   where a waiting / parked T is now                      → T@<point> | T waiting
+//   spawnw T set K V         like spawn, but the request may have to wait for a closing instance → … | T wait-timeout
+//   spawnv T del K           Delete in a goroutine; parks at gw.del.vigil (vigil held, nothing deleted yet), then like spawn del
+//   gow T                    go, for a T that may have to wait (a drain)            → … | T wait-timeout
+//   poll T                   where a waiting / parked T is now                      → T@<point> | T wait-timeout
 //   go T                     release T to its next park point / completion          → T@<point> | T done <status>
 //   tick arm                 wait until this swamp's close listener has read lastInteractionTime with an
 //                            "idle long enough" outcome and park it there            → tick parked | tick timeout
-//   tick go                  release the listener; report whether it closed the swamp → tick closed | tick noclose
+//   tick go                  release the listener; report whether it closed the swamp → tick closed | tick timeout-noclose
 //   close                    Close() on the mapped instance (what idle eviction / graceful stop do when nothing is in flight)
 //   reopen                   what a client finds when it asks again (GetAll, re-summons) → keys=[k:v,…]
 // case N stop d      graceful stop on a server of its own: set K V | stop | reopen
@@ -47,7 +50,8 @@ import (
 
 func init() { Register("C16", Domain{Gen: c16Gen, Run: c16Run}) }
 
-const c16StepTimeout = 3 * time.Second
+// a wait ends on its event; the limit only matters for a request that really hangs (scaled by HX_TIMEOUT_SCALE)
+var c16StepTimeout = HxScale(10 * time.Second)
 
 func c16Gen(rng *rand.Rand, tier string, w *bufio.Writer) {
 	seq := 25
@@ -61,6 +65,9 @@ func c16Gen(rng *rand.Rand, tier string, w *bufio.Writer) {
 	// (2) the listener decides from a stale last-interaction time while a request has just been handed the instance
 	fmt.Fprintf(w, "case %d life i\nset a x\ntick arm\nspawn A set b y\ntick go\ngo A\ngo A\nreopen\n", c)
 	c++
+	// the listener finds the swamp idle long enough while a request holds a vigil: it must not close
+	fmt.Fprintf(w, "case %d life i\nset a x\nspawn A set b y\ngo A\ntick arm\ntick go\ngo A\nclose\nreopen\n", c)
+	c++
 	// the same two shapes without the race: nothing may be lost
 	fmt.Fprintf(w, "case %d life d\nset a x\nspawn A set b y\ngo A\ngo A\nspawn B del a\nreopen\nclose\nreopen\n", c)
 	c++
@@ -68,6 +75,13 @@ func c16Gen(rng *rand.Rand, tier string, w *bufio.Writer) {
 	c++
 	// a request summons while a closing instance is flushed but still mapped: it has to wait for the map entry to go
 	fmt.Fprintf(w, "case %d life d\nset a x\nspawn C close\nspawnw A set b y\ngo C\npoll A\ngo A\ngo A\nreopen\nclose\nreopen\n", c)
+	c++
+	// a delete that finds the swamp already being destroyed gives its vigil back twice: the drain no longer waits for W
+	fmt.Fprintf(w, "case %d life d\nset a x\nspawn W set c z\ngo W\nspawn E set b y\ngo E\nspawnv D del b\nspawn B del a\ngo E\ngo D\ngow B\ngo W\npoll B\nreopen\nclose\nreopen\n", c)
+	c++
+	// a two-key Delete whose first key empties the swamp while an insert is in flight: the auto-destroy closes instead,
+	// and the second key must not be deleted on the closed instance
+	fmt.Fprintf(w, "case %d life d\nset a x\nspawn A set c y\ngo A\nspawn B delm a c\ngo A\ngo B\nreopen\nclose\nreopen\n", c)
 	c++
 	// sequential: delete, re-create, delete on a key that is in the file
 	fmt.Fprintf(w, "case %d life d\nset c x\nset a x\nclose\ndel c\nset c y\ndel c\nclose\nreopen\n", c)
@@ -281,7 +295,7 @@ func (st *c16State) awaitFor(t *c16Thread, d time.Duration) string {
 				}
 			}
 		case <-deadline:
-			return t.name + " waiting"
+			return t.name + " wait-timeout" // it is (still) waiting for a closing instance
 		}
 	}
 }
@@ -300,7 +314,7 @@ func (st *c16State) endCase() {
 	}
 	st.th = map[string]*c16Thread{}
 	st.mu.Unlock()
-	deadline := time.After(2 * time.Second)
+	deadline := time.After(HxScale(4 * time.Second))
 	pending := 0
 	for _, t := range ths {
 		if t.at != "done" {
@@ -318,7 +332,7 @@ func (st *c16State) endCase() {
 		case <-st.done:
 			pending--
 		case <-st.events:
-		case <-time.After(10 * time.Millisecond):
+		case <-time.After(HxScale(10 * time.Millisecond)):
 		case <-deadline:
 			st.leaked = true
 			pending = 0
@@ -383,9 +397,16 @@ func c16Run(in *bufio.Scanner, w *bufio.Writer) {
 		if th == "" {
 			return
 		}
-		if t := st.get(th); t != nil && t.parks[nm] {
-			st.events <- c16Ev{th: th, name: nm}
-			<-t.gate
+		if t := st.get(th); t != nil {
+			// every park point is used once per request (a two-key delete reaches destroy.draining a second time)
+			st.mu.Lock()
+			hit := t.parks[nm]
+			delete(t.parks, nm)
+			st.mu.Unlock()
+			if hit {
+				st.events <- c16Ev{th: th, name: nm}
+				<-t.gate
+			}
 		}
 	})
 	defer func() {
@@ -407,6 +428,7 @@ func c16Run(in *bufio.Scanner, w *bufio.Writer) {
 		}
 		if f[0] == "case" {
 			st.endCase()
+			st.threads.NextEpoch()
 			if st.stopRig != nil {
 				_ = os.RemoveAll(st.stopRig.Root)
 				if st.stopCopy != "" {
@@ -442,7 +464,7 @@ func c16Run(in *bufio.Scanner, w *bufio.Writer) {
 			continue
 		}
 		if st.dead {
-			fmt.Fprintln(w, "skip")
+			fmt.Fprintln(w, "err skip")
 			continue
 		}
 		switch {
@@ -460,8 +482,21 @@ func c16Run(in *bufio.Scanner, w *bufio.Writer) {
 				fmt.Fprintln(w, t.name+"@"+t.at)
 				break
 			}
-			fmt.Fprintln(w, st.awaitFor(t, 1500*time.Millisecond))
-		case (f[0] == "spawn" || f[0] == "spawnw") && len(f) >= 3 && st.get(f[1]) == nil:
+			fmt.Fprintln(w, st.awaitFor(t, HxScale(2*time.Second)))
+		case f[0] == "gow" && len(f) == 2:
+			t := st.get(f[1])
+			if t == nil || t.at == "done" {
+				fmt.Fprintln(w, "bad-op")
+				break
+			}
+			select {
+			case t.gate <- struct{}{}:
+				t.at = ""
+				fmt.Fprintln(w, st.awaitFor(t, HxScale(1500*time.Millisecond)))
+			case <-time.After(c16StepTimeout):
+				fmt.Fprintln(w, t.name+" stuck")
+			}
+		case (f[0] == "spawn" || f[0] == "spawnw" || f[0] == "spawnv") && len(f) >= 3 && st.get(f[1]) == nil:
 			t := &c16Thread{name: f[1], gate: make(chan struct{}), parks: map[string]bool{}}
 			var run func() string
 			switch {
@@ -470,7 +505,20 @@ func c16Run(in *bufio.Scanner, w *bufio.Writer) {
 				run = func() string { return st.doSet(f[3], f[4]) }
 			case f[2] == "del" && len(f) == 4:
 				t.parks["destroy.draining"] = true
+				if f[0] == "spawnv" {
+					t.parks["gw.del.vigil"] = true
+				}
 				run = func() string { return st.doDel(f[3]) }
+			case f[2] == "delm" && len(f) == 5:
+				t.parks["destroy.draining"] = true
+				run = func() string {
+					resp, err := st.gw().Delete(context.Background(), &hydrapb.DeleteRequest{Swamps: []*hydrapb.DeleteRequest_SwampKeys{{IslandID: 1, SwampName: st.swamp, Keys: []string{f[3], f[4]}}}})
+					if err != nil || resp == nil || len(resp.GetResponses()) != 1 || len(resp.GetResponses()[0].GetKeyStatuses()) != 2 {
+						return "ERR"
+					}
+					ks := resp.GetResponses()[0].GetKeyStatuses()
+					return c16Status(ks[0].GetStatus()) + "," + c16Status(ks[1].GetStatus())
+				}
 			case f[2] == "close" && len(f) == 3:
 				t.parks["swamp.closed"] = true
 				run = func() string {
@@ -497,10 +545,13 @@ func c16Run(in *bufio.Scanner, w *bufio.Writer) {
 			go func() {
 				st.threads.Register(t.name)
 				defer st.threads.Unregister()
-				st.done <- c16Done{th: t.name, result: run()}
+				r := run()
+				if st.threads.Current() != "" { // not a leftover of an earlier case
+					st.done <- c16Done{th: t.name, result: r}
+				}
 			}()
 			if f[0] == "spawnw" {
-				fmt.Fprintln(w, st.awaitFor(t, 700*time.Millisecond))
+				fmt.Fprintln(w, st.awaitFor(t, HxScale(1500*time.Millisecond)))
 			} else {
 				fmt.Fprintln(w, st.await(t))
 			}
@@ -522,7 +573,7 @@ func c16Run(in *bufio.Scanner, w *bufio.Writer) {
 			}
 			st.tickArm.Store(true)
 			res := "tick timeout"
-			deadline := time.After(8 * time.Second)
+			deadline := time.After(HxScale(12 * time.Second))
 		armLoop:
 			for {
 				select {
@@ -538,7 +589,7 @@ func c16Run(in *bufio.Scanner, w *bufio.Writer) {
 			}
 			fmt.Fprintln(w, res)
 		case f[0] == "tick" && len(f) == 2 && f[1] == "go":
-			res := "tick noclose"
+			res := "tick timeout-noclose" // no close was seen within the window
 			select {
 			case st.tickGate <- struct{}{}:
 				select {
@@ -546,7 +597,7 @@ func c16Run(in *bufio.Scanner, w *bufio.Writer) {
 					if ev == "closed" {
 						res = "tick closed"
 					}
-				case <-time.After(6 * time.Second):
+				case <-time.After(HxScale(8 * time.Second)):
 				}
 			case <-time.After(c16StepTimeout):
 				res = "tick timeout"
